@@ -31,6 +31,7 @@ PROP = "C21"
 WORKERS = os.environ.get("VF_PROCS") or "auto"
 ALPHABET = set("!*-.0123456789?ABCDEFGHIJKLMNOPQRSTUVWXYZ[]_abcdefghijklmnopqrstuvwxyz")
 SPECIAL = {"TMP", "LXR", "PRS"}
+SMALL = os.environ.get("VF_SCOPE") == "small"     # development only: a strict subset of the quick tier
 
 # selector pool for the live registry: codes, names, groups, aliases, globs, unknowns
 LIVE_POOL = [
@@ -116,9 +117,12 @@ def make_config(allow, deny, k):
             text += f"rules = {sep.join(a) if a else 'None'}\n"
         if d:
             text += f"exclude_rules = {sep.join(d)}\n"
-        return FluffConfig.from_string(text, overrides={"dialect": "ansi"}), "from_string"
+        if k % 77 == 3:            # the public constructor (expands a dialect: ~7 ms, hence only now and then)
+            return FluffConfig.from_string(text, overrides={"dialect": "ansi"}), "from_string"
+        from sqlfluff.core.config.loader import load_config_string
+        return FluffConfig(configs=load_config_string(text), require_dialect=False), "config_string"
     if route == 5:
-        return FluffConfig.from_kwargs(dialect="ansi", rules=a or None, exclude_rules=d or None), "from_kwargs"
+        return FluffConfig.from_kwargs(rules=a or None, exclude_rules=d or None, require_dialect=False), "from_kwargs"
     ov = {}
     if a:
         ov["rules"] = sep.join(a) + ("," if k % 3 == 0 else "")
@@ -164,9 +168,8 @@ def selection_suite(rep: Report, which: str, consts: dict, registry=None, pool=N
             with open(fn, "w") as fh:
                 json.dump({"rules": registry, "pool": pool}, fh)
             env = {"VF_REGISTRY": fn}
-        env["JAVA_TOOL_OPTIONS"] = "-Xss512m"     # the folds over the 79-rule registry recurse a few hundred deep
         m = run_tlc("RuleSelect", cfg_text(constants=dict(Source=which, **consts),
-                                           invariants=["RefMapPrecedence", "SelectedMatches", "IndexedIsByRef", "SelectedAreRules",
+                                           invariants=["RefMapPrecedence", "SelectedMatches", "SelectedAreRules",
                                                        "DenyWins", "AllowCovers", "ExactlyAllowLessDeny"]),
                     env=env, timeout=3000, workers=WORKERS, heap="8g")
     finally:
@@ -180,6 +183,8 @@ def selection_suite(rep: Report, which: str, consts: dict, registry=None, pool=N
     if len(head) != 1 or len(recs) * 2 != m.distinct:
         raise MachineryError(f"RuleSelect({which}) printed {len(head)} registry records and {len(recs)} cases for {m.distinct} states")
     reg, pl, refmap = head[0]["registry"], head[0]["pool"], head[0]["refmap"]
+    for r in recs:
+        r["sel"] = [reg[i - 1]["code"] for i in r["sel"]]       # rule indices -> codes
     if which == "live" and (reg != registry or pl != pool):
         raise MachineryError("TLC did not read back the registry that was written")
     # the real reference map against the contract's RefMap
@@ -285,9 +290,8 @@ def record_diff(item: dict):
 
 
 def diff_inputs(tier: str, seed: int):
-    rnd = random.Random(seed)
     items = []
-    nfiles, ncases = (120, 330) if tier == "quick" else (700, 2400)
+    nfiles, ncases = (20, 60) if SMALL else (120, 330) if tier == "quick" else (700, 2400)
     for path, dialect, _t in sq.corpus_sample(nfiles, seed):
         items.append({"id": "fx:" + os.path.relpath(path, sq.FIX), "text": sq.read(path), "dialect": dialect,
                       "fname": path, "configs": None})
@@ -296,8 +300,10 @@ def diff_inputs(tier: str, seed: int):
         items.append({"id": "rc:" + c["id"], "text": c["sql"], "dialect": "ansi", "fname": "<string>",
                       "configs": c["configs"], "rule": c["rule"]})
     items.sort(key=lambda it: it["id"])
-    for i, it in enumerate(items):
-        a, d = SELECTIONS[rnd.randrange(len(SELECTIONS))] if i % 3 else SELECTIONS[1]
+    for it in items:
+        r = random.Random(f"{seed}:{it['id']}")     # per input, so that a smaller sample is a subset of a larger one
+        i = r.randrange(6)
+        a, d = SELECTIONS[r.randrange(len(SELECTIONS))] if i % 3 else SELECTIONS[1]
         a, d = list(a), list(d)
         if it.get("rule") and a and i % 2 and "," not in it["rule"]:
             a.append(it["rule"])        # make sure the case's own rule is in play
@@ -323,7 +329,7 @@ def differential(rep: Report, tier: str, seed: int, registry):
         val = validate_traces("RuleSelectTrace",
                               [{k: t[k] for k in ("id", "allow", "deny", "complete", "events")} for t in traces],
                               constants={"Source": "live", "MaxAllow": 0, "MaxDeny": 0, "MaxTotal": 0},
-                              batch=400, timeout=1800, extra_env={"VF_REGISTRY": fn, "JAVA_TOOL_OPTIONS": "-Xss512m"})
+                              batch=400, timeout=1800, extra_env={"VF_REGISTRY": fn})
     finally:
         shutil.rmtree(d, ignore_errors=True)
     rep.validation(val, "RuleSelectTrace")
@@ -356,12 +362,12 @@ def differential(rep: Report, tier: str, seed: int, registry):
 
 def run(tier: str, seed: int) -> int:
     rep = Report(PROP, tier, seed, "model_checking")
-    n = selection_suite(rep, "synthetic", {"MaxAllow": 2, "MaxDeny": 2, "MaxTotal": 4})
+    n = selection_suite(rep, "synthetic", {"MaxAllow": 2, "MaxDeny": 2, "MaxTotal": 2 if SMALL else 4})
     registry = live_registry()
     for s in LIVE_POOL + [x for a, d in SELECTIONS for x in a + d]:
         if not set(s) <= ALPHABET:
             raise MachineryError(f"selector {s!r} outside the spec's alphabet")
-    n += selection_suite(rep, "live", {"MaxAllow": 2, "MaxDeny": 2, "MaxTotal": 3 if tier == "quick" else 4},
+    n += selection_suite(rep, "live", {"MaxAllow": 2, "MaxDeny": 2, "MaxTotal": 2 if SMALL else 3 if tier == "quick" else 4},
                          registry, LIVE_POOL)
     rep.exhaustive = True
     differential(rep, tier, seed, registry)
@@ -406,7 +412,7 @@ def replay(path, tier, seed):
                     json.dump({"rules": reg, "pool": case["allow"] + case["deny"]}, fh)
                 na, nd = len(case["allow"]), len(case["deny"])
                 m = run_tlc("RuleSelect", cfg_text(constants=dict(Source="live", MaxAllow=na, MaxDeny=nd, MaxTotal=na + nd)),
-                            env={"VF_REGISTRY": fn, "JAVA_TOOL_OPTIONS": "-Xss512m"})
+                            env={"VF_REGISTRY": fn})
             finally:
                 shutil.rmtree(d, ignore_errors=True)
             want = [r for r in m.records if isinstance(r, dict) and "sel" in r
@@ -414,7 +420,7 @@ def replay(path, tier, seed):
             if len(want) != 1:
                 raise MachineryError("replay: TLC did not emit the pair")
             have, route, ordered = select_case((which, case["k"], case["allow"], case["deny"]))
-            if have != sorted(want[0]["sel"]) or not ordered:
+            if have != sorted(reg[i - 1]["code"] for i in want[0]["sel"]) or not ordered:
                 rep.violation("SelectedExact", {}, "again", case)
         bad = bool(rep.violations)
     else:
@@ -429,7 +435,7 @@ def replay(path, tier, seed):
                 json.dump({"rules": live_registry(), "pool": []}, fh)
             val = validate_traces("RuleSelectTrace", [{k: t[k] for k in ("id", "allow", "deny", "complete", "events")}],
                                   constants={"Source": "live", "MaxAllow": 0, "MaxDeny": 0, "MaxTotal": 0},
-                                  extra_env={"VF_REGISTRY": fn, "JAVA_TOOL_OPTIONS": "-Xss512m"})
+                                  extra_env={"VF_REGISTRY": fn})
         finally:
             shutil.rmtree(d, ignore_errors=True)
         bad = bool(val.rejected)
